@@ -12,7 +12,7 @@ INV = ["TypeOK", "HiBound", "Converged", "ExpiryRule", "MissRule", "SnapshotMatc
 
 def consts(**kw):
     c = dict(SrcSeq="<- Src2", ProvSeq="<- Prov2", MaxVer=2, TTL=1, TickLen=2, MaxTicks=1, MaxCalls=3, MaxEnv=1,
-             FIXED=True, EXPORT=True, InitFree=True, WithWaiter=True, MaxAuto=0)
+             FIXED=True, EXPORT=True, InitFree=True, WithWaiter=True, MaxAuto=0, PREGHOST=False)
     c.update(kw)
     return c
 
@@ -27,6 +27,9 @@ QUICK = {
     # one source, one provider, long histories: disappear / reappear / expire cycles (the removal timer must restart)
     # a lookup finds the refresh interval elapsed: the automatic refresh runs in its own goroutine, alone or behind another writer
     "E-auto": consts(MaxVer=1, MaxCalls=3, MaxEnv=1, MaxTicks=0, MaxAuto=1),
+    # a publication's predecessor snapshot is part of the state: the same snapshot reached through an update that was still in the
+    # update map and through one that had been merged (the rebuild of the main map must prefer the update map) are both replayed
+    "F-merge": consts(SrcSeq="<- Src1", MaxVer=2, MaxCalls=3, MaxEnv=2, MaxTicks=0, WithWaiter=False, PREGHOST=True),
     "D-reappear": consts(SrcSeq="<- Src1", ProvSeq="<- Prov1", MaxVer=1, MaxCalls=5, MaxEnv=3, MaxTicks=1, WithWaiter=False),
 }
 THOROUGH = {
@@ -35,6 +38,7 @@ THOROUGH = {
     "T3-3src": consts(SrcSeq="<- Src3", MaxVer=2, MaxCalls=2, MaxEnv=1, MaxTicks=0, WithWaiter=False),
     "T4-3prov": consts(ProvSeq="<- Prov3", MaxVer=1, MaxCalls=3, MaxEnv=1, MaxTicks=1, WithWaiter=False),
     "T6-auto": consts(MaxVer=2, MaxCalls=4, MaxEnv=1, MaxTicks=0, MaxAuto=2),
+    "T7-merge": consts(ProvSeq="<- Prov3", MaxVer=2, MaxCalls=4, MaxEnv=3, MaxTicks=0, WithWaiter=False, PREGHOST=True, SrcSeq="<- Src1"),
     "T5-reappear": consts(SrcSeq="<- Src1", ProvSeq="<- Prov1", MaxVer=2, MaxCalls=7, MaxEnv=5, MaxTicks=3, WithWaiter=False),
 }
 
